@@ -581,6 +581,8 @@ impl Generator {
             link.push_goto(column, ln)?;
         }
         if is_gosub {
+            // nothing selected: consume the return address pushed above
+            link.push(Opcode::Return)?;
             link.push_symbol(ret_symbol);
         }
         Ok(col.start..sub_col.end)
